@@ -22,7 +22,7 @@ pub fn check() -> Check {
         rule: "per run: a seeded tiny program (2-3 threads, 1-3 operations each, one primitive family at a time or mixed: mutex/rwlock/try-locks, condvar, barrier, once + is_completed, atomics, channels with endpoint drops, park/unpark, joins); the model's outcome set is enumerated; the runtime's choice tree is explored exhaustively by scripted schedules up to a leaf budget. Violations: an observed outcome the model does not allow, or — when the tree was exhausted — a model outcome that no schedule produces (keyed by the kind of operation that lacks a preceding choice point). Distinct = (program, schedule); non-trivial = program whose model outcome set has at least 2 elements",
         assumptions: &["outcome = per-thread operation results plus termination verdict; barrier leader identity and task ids are not part of the outcome", "the reference model may over-approximate only in ways argued harmless in DESIGN.md (absorbing fast paths)", "programs whose runtime tree exceeds the leaf budget are inconclusive (counted, never alarmed)"],
         real_components: "real: shuttle-std primitives and shuttle-engine runtime explored through the harness's scripted FollowSched; model: outcome enumeration in harness/src/model.rs",
-        batches: |t: Tier| vec![Batch::new("tiny", t.pick(2500, 60000), 50), Batch::new("known", 2, 1)],
+        batches: |t: Tier| vec![Batch::new("tiny", t.pick(2500, 60000), 50), Batch::new("known", 2, 1), Batch::new("choicepoints", t.pick(12000, 200000), 400)],
         run,
         replay,
         probes: &["programs_exhausted", "programs_with_2+_outcomes", "outcomes_compared", "inconclusive_budget", "deadlock_outcomes"],
@@ -50,7 +50,13 @@ fn gen_tiny(rng: &mut Rng) -> Program {
         3 => cfg.barrier = true,
         4 => cfg.once = true,
         5 => cfg.atomic = true,
-        6 | 7 => cfg.chan = true,
+        6 | 7 => {
+            cfg.chan = true;
+            cfg.trylock = true;
+            if rng.chance(1, 2) {
+                cfg.atomic = true;
+            }
+        }
         _ => {
             cfg.park = true;
             cfg.atomic = true;
@@ -251,6 +257,42 @@ fn run(batch: &str, idx: u64, seed: u64, tier: Tier) -> RunOut {
         check_program(&witness(idx), 6000, &mut out);
         return out;
     }
+    if batch == "choicepoints" {
+        // local form of the property on medium-sized programs: a visible operation that completes without
+        // any scheduling decision since the task's previous operation lacks its choice point, unless it
+        // is one of the absorbing fast paths argued harmless in DESIGN.md (reads of a state that can no
+        // longer change, purely task-local operations, a cancellation that nobody could observe).
+        let mut cfg = crate::prog::GenCfg::swarm(&mut rng);
+        cfg.sem = rng.chance(1, 4);
+        let prog = crate::prog::gen_program(&mut rng, &cfg);
+        let mut sim = crate::sim::SimCfg::new(rng.next_u64());
+        sim.policy = random_policy(&mut rng);
+        let case = ProgCase { prog, sim, max_steps: None };
+        let r = run_case(&case);
+        out.evals += r.rt.execs.len() as u64;
+        for (i, ex) in r.rt.execs.iter().enumerate() {
+            out.decisions += ex.decisions().count() as u64;
+            if ex.switches() > 0 {
+                out.distinct.push(hash_debug(&(&case.prog, ex.chosen_seq())));
+            }
+            let ending = exec_ending(&r, i);
+            if let Ok(st) = crate::model::lockstep(&case.prog, ex, ending) {
+                for (kind, (n, example)) in &st.same_step {
+                    out.count(&format!("same_step_completion_{}", kind), *n);
+                    const HARMLESS: [&str; 15] = ["CallOnce", "LazyGet", "StaticOnce", "Park", "Rand", "ScopeEnd", "ThreadInfo", "LabelSet", "LabelGet", "TlsWith", "ResetSteps", "SemCancel", "CatchBegin", "CatchEnd", "Fail"];
+                    if HARMLESS.contains(&kind.as_str()) {
+                        continue;
+                    }
+                    out.violation(
+                        format!("C02:no-choice-point-before:{}", kind),
+                        format!("{} completed without any scheduling decision since the task's previous operation ({} times in this execution, e.g. {})", kind, n, example),
+                        case_json(&case),
+                    );
+                }
+            }
+        }
+        return out;
+    }
     let p = gen_tiny(&mut rng);
     check_program(&p, tier.pick(600, 6000) as usize, &mut out);
     out
@@ -258,6 +300,19 @@ fn run(batch: &str, idx: u64, seed: u64, tier: Tier) -> RunOut {
 
 fn replay(case: &Value) -> RunOut {
     let mut out = RunOut::default();
+    if let Some(c) = case_from_json(case) {
+        let r = run_case(&c);
+        for (i, ex) in r.rt.execs.iter().enumerate() {
+            if let Ok(st) = crate::model::lockstep(&c.prog, ex, exec_ending(&r, i)) {
+                for (kind, (n, example)) in &st.same_step {
+                    if !["CallOnce", "LazyGet", "StaticOnce", "Park", "Rand", "ScopeEnd", "ThreadInfo", "LabelSet", "LabelGet", "TlsWith", "ResetSteps", "SemCancel", "CatchBegin", "CatchEnd", "Fail"].contains(&kind.as_str()) {
+                        out.violation(format!("C02:no-choice-point-before:{}", kind), format!("{} x{} e.g. {}", kind, n, example), case.clone());
+                    }
+                }
+            }
+        }
+        return out;
+    }
     if let Some(p) = case.get("c02").and_then(|c| serde_json::from_value::<Program>(c.clone()).ok()) {
         let budget = case.get("budget").and_then(|b| b.as_u64()).unwrap_or(6000) as usize;
         check_program(&p, budget, &mut out);
